@@ -164,9 +164,9 @@ CHECKS["C06"] = {
     "pkg": "./conn",
     "level": "exploration",
     "rule": ("A case is a connection configuration (soft/hard cancel, split size, writer buffer), 1..3 RPCs whose client and handler programs are drawn independently "
-             "(unary or stream; client: send/recv/drain/closesend/close/cancel steps and receives whose encoding rejects the message, unary with an optional concurrent canceller, optional cancel of the call's context once it is over; "
+             "(unary or stream; client: send/recv/drain/closesend/close/cancel steps, receives whose encoding rejects the message and sends whose encoding cannot marshal it, unary with an optional concurrent canceller or with a request that cannot be marshalled, optional cancel of the call's context once it is over; "
              "handler: recv/send steps, possibly an undecodable receive or no receive at all, then return nil or an error), issued one after the other or all up front from separate goroutines, "
-             "optionally holding the point between stream creation and the invoke write, a window of steps during which one transport direction is stalled, and up to 300 pre-drawn director choices from an alphabet weighted towards grants (transport chunking, grants, point releases). "
+             "optionally holding the point between stream creation and the invoke write or keeping the goroutine that watches the call's context late until the call is over, a window of steps during which one transport direction is stalled, and up to 300 pre-drawn director choices from an alphabet weighted towards grants (transport chunking, grants, point releases). "
              "After each RPC the transport is flushed; an application-level stall is ended by Close from another goroutine. Oracle: if the connection has not reported itself closed and every client call and handler "
              "has returned, a probe unary RPC reaches its handler and returns its own echo, decided at quiescence in flush mode. Non-trivial: the probe ran and some earlier RPC ended with bytes in flight, "
              "an early close, a soft cancel, a handler error or a forced close. Distinct by action trace + programs."),
@@ -180,7 +180,7 @@ CHECKS["C06"] = {
 CHECKS["C04"] = {
     "pkg": "./conn",
     "level": "exploration",
-    "rule": ("Optionally an earlier unary call has completed on the connection and had its context cancelled at once. One streaming RPC is created, then up to five client goroutines (two senders, a receiver, a terminal call Close/CloseSend, plus late operations) are advanced by up to 30 director "
+    "rule": ("Optionally an earlier unary call has completed on the connection and had its context cancelled at once (with the goroutine watching that context possibly late). One streaming RPC is created, then up to five client goroutines (two senders, a receiver, a terminal call Close/CloseSend, plus late operations) are advanced by up to 30 director "
              "choices drawn from an alphabet weighted towards grants (so that several operations are in flight), optionally with 1..4 of 13 stream/manager scheduling points held; then the RPC's context "
              "is cancelled and the transport is FROZEN (no accept, no delivery; point releases only); optionally a second caller issues a unary call at that moment and has its own context cancelled while it waits. Oracle at quiescence: every operation of the RPC has returned; receives blocked at cancel time satisfy "
              "errors.Is(err, context.Canceled) and, in the default mode, so do sends parked in the transport (only when the cancel is the sole termination cause); nil is never returned by a blocked op; "
@@ -275,7 +275,7 @@ CHECKS["C05"] = {
 CHECKS["C12"] = {
     "pkg": "./conn",
     "level": "exploration",
-    "rule": ("close: a workload of 0..2 RPCs with independently drawn client/handler programs (sequential or concurrent callers, optionally stalled directions, 1..3 of 9 scheduling points incl. the window inside terminate) "
+    "rule": ("close: a workload of 0..2 RPCs with independently drawn client/handler programs (sequential or concurrent callers, optionally stalled directions, 1..3 of 11 scheduling points incl. the window inside terminate and the one between publishing a new stream and handing it to its watcher, goroutines either released as they arrive or held there until the close, optionally a peer message out of turn for the newest stream just before the close) "
              "is advanced by 0..40 weighted director choices; then one of Conn.Close, two concurrent Conn.Close, cancel of the serving context, both, or Conn.Close racing a failing transport read is issued and the "
              "transport is FROZEN. Oracle at quiescence: Close returned; every client (resp. handler) call returned; Closed() fired; the transport's Close was called exactly once; contexts of the active streams are done; calls "
              "issued afterwards fail. Then bytes move again: the other side shuts down too, both transports closed exactly once, no goroutine with a storj.io/drpc frame remains. "
